@@ -77,6 +77,13 @@ func init() {
 // c08CheckStr checks FromStr / Get / ToStr on one string at one width.
 func c08CheckStr(w *mon.W, n int, s string) bool {
 	bw := bitword.BitWord[n]
+	if (gen.HashStr(s)+uint64(n))&3 == 0 {
+		// the string as the last bytes of a mapping: nothing may be read beyond it
+		if v, rel, ok := roTailStr(w, s); ok {
+			s = v
+			defer rel()
+		}
+	}
 	w.Op, w.A, w.Obj = "FromStr", int64(n), nil
 	words := bw.FromStr(s)
 	nwords := 8 * len(s) / n
@@ -321,6 +328,17 @@ func c08FirstDiff(w *mon.W, idx int) {
 		b = gen.ZooBytes(r, r.Intn(5))
 	}
 	sa, sb := string(a), string(b)
+	if idx%3 == 1 { // one of the two strings as the last bytes of a mapping
+		if idx%2 == 0 {
+			if v, rel, ok := roTailStr(w, sa); ok {
+				sa = v
+				defer rel()
+			}
+		} else if v, rel, ok := roTailStr(w, sb); ok {
+			sb = v
+			defer rel()
+		}
+	}
 	wa, wb := 8*len(sa)/n, 8*len(sb)/n
 	wmax := max(wa, wb)
 	var ev int64
